@@ -77,7 +77,8 @@ def main():
     sh("git", "-C", WT, "checkout", "-q", "--", ".")
     json.dump(km, open(km_path, "w"), indent=1, sort_keys=True)
     # remove run-time replay files produced against mutants
-    for root, _, files in os.walk(os.path.join(HOME, "replays")):
+    for pr in sorted({m["prop"] for m in muts}):
+      for root, _, files in os.walk(os.path.join(HOME, "replays", pr)):
         for f in files:
             if f.startswith("new-"):
                 os.remove(os.path.join(root, f))
